@@ -5,6 +5,7 @@ import IpcModel.SideTable
 import IpcModel.Router
 import IpcModel.Interleave.Core
 import IpcModel.RecvSetP
+import IpcModel.GenSet
 import IpcModel.Ideal
 import IpcModel.Unix
 import IpcModel.Ledger.L
